@@ -39,6 +39,8 @@ def run_history(ctx, res, rng, hid, allow=("delete_page", "rename_page", "paths"
             w.delete_page()
         elif r < 0.77 and "rename_page" in allow:
             w.rename_page()
+        elif r < 0.80 and "delete_page" in allow:
+            w.restore_page()
         elif r < 0.85:
             w.advance()
         else:
@@ -58,6 +60,20 @@ def run_history(ctx, res, rng, hid, allow=("delete_page", "rename_page", "paths"
         return
     inc = H.canon_dump(zdir)
     files_final = w.files()
+    # C06_plain_reindex, second conjunct: after a plain reindex the hash map records exactly the current files
+    import hashlib
+    import json
+
+    try:
+        hm = json.loads((zdir / ".zorg" / "file_hash.json").read_text())
+    except Exception as e:  # noqa: BLE001
+        hm = {"<unreadable>": str(e)}
+    want = {k: hashlib.sha256(v.encode()).hexdigest() for k, v in files_final.items()}
+    if hm != want:
+        k = next(k for k in sorted(set(hm) | set(want)) if hm.get(k) != want.get(k))
+        res.failures.append(C.Failure(f"after the final plain reindex the hash map does not describe the files: entry {k!r} is {str(hm.get(k))[:12]}, file hash {str(want.get(k))[:12]}",
+                                      {"log": w.log, "kind": "hash_map", "page": k}))
+        return
     # fresh index of a copy of the final files
     fresh = ctx.tmp / "fresh"
     if fresh.exists():
@@ -101,10 +117,7 @@ def run_history(ctx, res, rng, hid, allow=("delete_page", "rename_page", "paths"
 
 
 def body(ctx: C.Ctx, proof: C.ProofStatus) -> C.Result:
-    res = C.Result()
-    rng = ctx.rng
-    for hid in range(ctx.scale(20, 3000)):
-        run_history(ctx, res, rng, hid)
+    res, _ = C.parallel_jobs(ctx, ctx.scale(48, 600), run_history)
     return res
 
 
@@ -114,9 +127,9 @@ def classify(f: C.Failure, entry: dict) -> bool:
 
 RULE = (
     "histories of 8-22 operations over generated indexed directories: body / bullet / kind / priority edits, added, deleted and moved items, added and "
-    "retitled sections, header-line edits, comments, added / deleted / renamed pages, days advancing, `db reindex` with and without explicit paths "
+    "retitled sections, header-line edits, comments, added / deleted / renamed / deleted-then-restored pages, days advancing, `db reindex` with and without explicit paths "
     "(relative and absolute), ending with a plain reindex; canonical raw-SQL dump of the incremental index vs `db create` on a copy of the final "
-    "files, plus 10 sampled queries on both; non-trivial = distinct history"
+    "files, the hash map vs the files, plus 10 sampled queries on both; non-trivial = distinct history"
 )
 ASSUME = ["file system and SQLite atomic; explicit edits only between commands"]
 
